@@ -116,6 +116,7 @@ def rule_legal_src(ctx):
     sym = ctx.sym(it)
     emits = c10.bestmove_emits(ix, it)
     ok_sources = 0
+    seen = {}
     for eb in emits:
         t = it.blocks[eb].term
         e = ("call", "", tuple(sym.operand(a) for a in t["args"]))
@@ -148,21 +149,91 @@ def rule_legal_src(ctx):
             ctx.functions.add(b.key)
             bsym = bsym or mir.Sym(b, ix)
             v = bsym.rvalue(s["rv"])
-            # Some(best_ply): which definitions of best_ply reach?  classify each def
             names = [x[1] for x in walk(v) if isinstance(x, tuple) and x[0] == "var"]
+            if v[0] == "agg" and v[2] == "None":
+                continue
+            if not names:
+                ctx.bad("%s:best_move<-%s" % (b.key, expr_str(v)[:40]), "info.best_move is assigned `%s`, whose legality is not established (cannot decide)" % expr_str(v)[:80], b.where(bi))
+                continue
             for nm in names:
                 l = [k for k in range(len(b.locals)) if b.local_name(k) == nm]
                 if not l:
                     continue
+                pseudo = []
                 for (db, di, rv) in b.defs().get(l[0], []):
                     dv = bsym.rvalue(rv) if rv.get("k") != "call" else ("call",)
-                    src = expr_str(dv)
                     if is_legal_checked(ix, b, bsym, db, dv):
-                        ctx.ok("%s:best_move<-%s:legality-checked" % (b.key, nm), "`%s` is assigned from a move that passed is_legal_move in the same loop iteration" % nm, b.where(db))
+                        ctx.ok(c15.dedup(seen, "%s:best_move<-%s:legality-checked" % (b.key, nm)), "`%s` is assigned from a move that passed is_legal_move in the same loop iteration" % nm, b.where(db))
                     else:
-                        ctx.note("%s:best_move<-%s:from=%s" % (b.key, nm, src[:40]),
-                                 "`%s` is initialised from `%s` (pseudo-legal); it reaches info.best_move only if no searched move raised alpha, which needs value reasoning (every legal move scores > i16::MIN) -- not decided" % (nm, src[:60]), b.where(db))
+                        pseudo.append((db, expr_str(dv)))
+                if not pseudo:
+                    continue
+                # `nm` may still hold its pseudo-legal initial value: the store must be unreachable in that state
+                why = alpha_raised_evidence(ix, b, bsym, bi, nm)
+                key = c15.dedup(seen, "%s:store-of-%s-needs-a-searched-move" % (b.key, nm))
+                if why:
+                    ctx.ok(key, "`%s` starts as a pseudo-legal move (%s) but this store is only reached after a legal move raised alpha (%s)" % (nm, pseudo[0][1][:50], why), b.where(bi))
+                else:
+                    ctx.bad(key, ("info.best_move = Some(%s) is reachable while `%s` still holds its initial value `%s`, which comes from the pseudo-legal list and was never legality-checked: "
+                                  "if the search is cut before any move raised alpha, an illegal move (e.g. one leaving the king in check) is reported as bestmove") % (nm, nm, pseudo[0][1][:70]), b.where(bi))
     ctx.floor("writers of info.best_move", n_w, 2)
+
+
+def alpha_raised_evidence(ix, b, sym, store_block, nm):
+    """Why, at `store_block`, the variable `nm` cannot still hold its pseudo-legal initial value."""
+    # premise shared by both arguments: alpha and `nm` are updated together, from a legality-checked move, under score > alpha,
+    # alpha starts at i16::MIN
+    al = [l for l in range(len(b.locals)) if b.local_name(l) == "alpha"]
+    bp = [l for l in range(len(b.locals)) if b.local_name(l) == nm]
+    if not al or not bp:
+        return None
+    adefs = b.defs().get(al[0], [])
+    init = [d for d in adefs if sym.rvalue(d[2]) == ("const", -32768, "i16")]
+    upd = [d for d in adefs if d not in init]
+    if len(init) != 1 or not upd:
+        return None
+    for (db, di, rv) in upd:
+        v = sym.rvalue(rv)
+        cons = C.constraints_for(ix, b, sym, db)
+        if not any(c[3][0] == "bin" and c[3][1] == "Gt" and c[3][2] == v and c[3][3] == ("var", "alpha") and True in c[1] for c in cons):
+            return None
+        # the same block assigns nm from a legality-checked move
+        same = [d for d in b.defs().get(bp[0], []) if d[0] == db and is_legal_checked(ix, b, sym, db, sym.rvalue(d[2]))]
+        if not same:
+            return None
+    cons = C.constraints_for(ix, b, sym, store_block)
+    for c in cons:
+        e = c[3]
+        if e[0] == "bin" and e[1] == "Gt" and e[2] == ("var", "alpha") and True in c[1]:
+            return "guard alpha > %s, and alpha only exceeds i16::MIN after such an update" % expr_str(e[3])
+        if e[0] == "call" and e[1].endswith("Option::is_some_and") and True in c[1] and len(e[2]) == 2 and e[2][1][0] == "closure":
+            cb = ix.bodies.get(e[2][1][1])
+            caps = e[2][1][2]
+            if cb is not None and caps and mir.strip_refs(caps[0]) == ("var", "alpha"):
+                r = mir.Sym(cb, ix).local(0)
+                if r[0] == "bin" and r[1] == "Gt" and "0" in expr_str(r[2]) and mir.strip_copies(r[2])[0] == "field" and r[3][0] == "arg":
+                    return "guard best_score.is_some_and(|s| alpha > s), and alpha only exceeds i16::MIN after such an update"
+    # final store: at least one legal move was searched to completion and every score exceeds i16::MIN
+    tl = [c for c in cons if c[3][0] == "bin" and c[3][1] == "Eq" and c[3][2] == ("var", "total_legal_moves") and c[3][3][0] == "const" and c[3][3][1] == 0 and False in c[1]]
+    if tl:
+        sc = [l for l in range(len(b.locals)) if b.local_name(l) == "score"]
+        sdefs = [rv for (_db, _di, rv) in b.defs().get(sc[0], [])] if sc else []
+        negs = sdefs and all((rv.get("k") == "call" and callee_is(rv["t"], "core::num::<impl i16>::saturating_neg")) or
+                             (rv.get("k") != "call" and sym.rvalue(rv)[0] == "call" and sym.rvalue(rv)[1].endswith("saturating_neg")) for rv in sdefs)
+        # from the counting of a legal move, the next iteration is reached only through the `score > alpha` test
+        tlm = [l for l in range(len(b.locals)) if b.local_name(l) == "total_legal_moves"]
+        incs = [db for (db, di, rv) in b.defs().get(tlm[0], []) if sym.rvalue(rv) != ("const", 0, "i32")] if tlm else []
+        nexts = [bi for bi, t in b.calls() if "MoveOrderer as std::iter::Iterator>::next" in (t.get("callee") or "")]
+        tests = set()
+        for blk in b.blocks:
+            if blk.term["k"] == "switch":
+                scn = C.switch_cond(b, sym, blk.idx)
+                if scn and scn[0][0] == "bin" and scn[0][1] == "Gt" and scn[0][2] == ("var", "score") and scn[0][3] == ("var", "alpha"):
+                    tests.add(blk.idx)
+        through = bool(incs) and bool(nexts) and bool(tests) and all(nexts[0] not in b.reachable_from(x, removed=tests, include_start=False) for x in incs)
+        if negs and through:
+            return "total_legal_moves != 0, every counted move reaches the `score > alpha` test before the next iteration, alpha starts at i16::MIN and every score is a saturating_neg (>= MIN+1)"
+    return None
 
 
 def is_legal_checked(ix, b, sym, db, dv):
